@@ -6,7 +6,7 @@
 (* computes in the state reached so far.  TLC is the judge; the harness    *)
 (* that recorded the trace contains no oracle.                             *)
 (***************************************************************************)
-EXTENDS Parse, Abi, StrTab, Header, Note, Hash, SymVer, Json, IOUtils
+EXTENDS FileSem, Abi, Json, IOUtils
 
 Rec == ndJsonDeserialize(IOEnv.TRACE)
 
@@ -15,10 +15,12 @@ TargetLittle == TRUE          \* the build target of this image (reported in the
 VARIABLES l,        \* next trace line
           slots,    \* slot name -> line of the buffer event that last defined it
           tbl,      \* the lazily parsed table under test: [ty, class, little, buf] or <<>>
+          ht,       \* names of the symbol table the current hash table was built for (set by hash_wf)
+          fh,       \* the open slice-parser handle: [f |-> file, eb |-> handle] or <<>> (closed / open failed)
           sv,       \* the symbol version table under test: [class, little, versym, need, def, model] or <<>>
           nbad      \* number of events the specification does not allow
 
-vars == <<l, slots, tbl, sv, nbad>>
+vars == <<l, slots, tbl, ht, fh, sv, nbad>>
 
 Has(e, k) == k \in DOMAIN e
 IsLittle(es) == CASE es \in {"LE", "AnyL"} -> TRUE
@@ -134,12 +136,13 @@ OkFind(e) ==
         r == IF e.op = "sysv_find" THEN SysvFind(e.class, little, hb, sy, st, e.name)
              ELSE GnuFind(e.class, little, hb, sy, st, e.name)
     IN /\ Sound(e.class, little, sy, st, e.name, e.res)                   \* any table bytes
-       /\ e.wf => Complete(e.class, little, sy, st, e.name, e.first, e.res)
+       /\ e.wf => (LET present == \E i \in e.first..(Len(ht) - 1) : ht[i + 1] = e.name
+                   IN IF present THEN Out(e) = "ok" ELSE Out(e) = "none")  \* complete on a well-formed table
        /\ Out(e) = r.out                                                  \* conformance with the operational model
        /\ r.out = "ok" => (e.res.idx = r.idx /\ e.res.sym = r.sym)
 \* a table the generator claims well formed must satisfy the format's own well-formedness predicate
 GenOkFind(e) ==
-    e.wf => IF e.op = "sysv_find" THEN SysvWellFormed(e.class, IsLittle(e.es), Buf(e, "hash"), Buf(e, "sym"), Buf(e, "str"))
+    e.wf => IF e.kind = "sysv" THEN SysvWellFormed(e.class, IsLittle(e.es), Buf(e, "hash"), Buf(e, "sym"), Buf(e, "str"))
             ELSE GnuWellFormed(e.class, IsLittle(e.es), Buf(e, "hash"), Buf(e, "sym"), Buf(e, "str"))
 
 \* version-record iterators (C13 building blocks, C16 bounds)
@@ -182,15 +185,39 @@ OkSymver(e) ==
             /\ (sv.model # <<>> /\ sv.def # <<>>) => DefOk(sv.model, Val(e.i), e.res, sv.def.str)
             /\ (sv.def = <<>>) => Out(e) = "none"
 
+\* ---- whole files: ElfBytes sessions (C03 C05 C07 C10 C18 C20) -----------------------------
+\* the file a slot holds: dense bytes or a sparse description
+FileOf(slot) == LET b == Rec[slots[slot]]
+                IN IF Has(b, "bytes") THEN [len |-> Len(b.bytes), dense |-> TRUE, bytes |-> b.bytes]
+                   ELSE [len |-> b.len, dense |-> FALSE, fill |-> b.fill, chunks |-> b.chunks]
+
+OkOpen(e) == OpenOk(FileOf(e.fileslot), e, FALSE)
+OkQ(e) == IF fh = <<>> THEN Out(e) = "closed" ELSE QueryOk(fh.f, fh.eb, e, FALSE)
+
+\* C18: the same query on the complete file (slot "full", of which the opened file is a prefix) gives
+\* the same answer unless the prefix gives an error -- a statement about the specification's own
+\* semantics, evaluated on every recorded query; conformance (OkQ) transfers it to the code
+PrefixRel(e) ==
+    (fh # <<>> /\ "full" \in DOMAIN slots) =>
+        LET ff == FileOf("full")
+            o == Open(ff, Rec[fh.openl].es)
+            po == QOut(fh.f, fh.eb, e, FALSE)
+        IN po = "err" \/
+           (/\ o.ok
+            /\ QOut(ff, o, e, FALSE) = po
+            /\ po = "ok" => QDet(ff, o, e, FALSE) = QDet(fh.f, fh.eb, e, FALSE))
+
 ---------------------------------------------------------------------------
 \* does the specification allow event e in the current state?
 Allowed(e) ==
-    CASE e.op \in {"session", "buf", "tbl_new", "symver_new"} -> TRUE
+    CASE e.op \in {"session", "buf", "tbl_new", "symver_new", "hash_wf"} -> TRUE
       [] e.op = "notes" -> OkNotes(e)
       [] e.op \in {"sysv_hash", "gnu_hash"} -> OkHashFn(e)
       [] e.op \in {"sysv_find", "gnu_find"} -> OkFind(e)
       [] e.op \in {"verdef_iter", "verneed_iter", "verdaux_iter", "vernaux_iter"} -> OkVerIter(e)
       [] e.op \in {"symver_req", "symver_def"} -> OkSymver(e)
+      [] e.op = "open" -> OkOpen(e)
+      [] e.op = "q" -> OkQ(e) /\ (Out(e) # "closed" => PrefixRel(e))
       [] e.op = "read_int" -> OkReadInt(e)
       [] e.op = "parse_at" -> OkParseAt(e)
       [] e.op = "acc" -> OkAcc(e)
@@ -205,9 +232,9 @@ Allowed(e) ==
 NoPanic(e) == Has(e, "res") => Out(e) # "panic"
 NoAlloc(e) == Has(e, "allocs") => e.allocs = 0
 
-GenOk(e) == IF e.op \in {"sysv_find", "gnu_find"} THEN GenOkFind(e) ELSE TRUE
+GenOk(e) == IF e.op = "hash_wf" THEN GenOkFind(e) ELSE TRUE
 
-Init == l = 1 /\ slots = [x \in {} |-> 0] /\ tbl = <<>> /\ sv = <<>> /\ nbad = 0
+Init == l = 1 /\ slots = [x \in {} |-> 0] /\ tbl = <<>> /\ ht = <<>> /\ fh = <<>> /\ sv = <<>> /\ nbad = 0
 
 Step ==
     /\ l <= Len(Rec)
@@ -228,6 +255,15 @@ Step ==
                       [] e.op = "tbl_new" -> [ty |-> e.ty, class |-> e.class, little |-> IsLittle(e.es),
                                               buf |-> Buf(e, "buf")]
                       [] OTHER -> tbl
+          /\ ht' = CASE e.op = "session" -> <<>>
+                     [] e.op = "hash_wf" ->
+                          LET sy == Buf(e, "sym") st == Buf(e, "str")
+                          IN [i \in 1..TblLen("sym", e.class, sy) |-> SymName(e.class, IsLittle(e.es), sy, st, i - 1)]
+                     [] OTHER -> ht
+          /\ fh' = CASE e.op = "session" -> <<>>
+                     [] e.op = "open" -> (LET f == FileOf(e.fileslot) o == Open(f, e.es)
+                                         IN IF o.ok THEN [f |-> f, eb |-> o, openl |-> l] ELSE <<>>)
+                     [] OTHER -> fh
           /\ sv' = CASE e.op = "session" -> <<>>
                      [] e.op = "symver_new" -> SvOf(e)
                      [] OTHER -> sv
